@@ -26,10 +26,13 @@ from oracledefs import lin as _lin
 SEQROT = Comp('seqrot', n_quick=40, n_thorough=400, oracle=_lin.lin_oracle, nontrivial=_lin.lin_nontrivial, stats=_lin.lin_stats,
               differential=False, chunk_min=3, timeout=1500, shrink=False)
 from oracledefs import walret as _wr
-WALRET = Comp('walret', n_quick=300, n_thorough=6000, oracle=_wr.walret_oracle, nontrivial=_wr.walret_nontrivial, stats=_wr.walret_stats)
-reg(Prop('C08', 'Kevo.Props.C08', facts=['facts:storage.*', 'facts:wal.AppendBatch.nextSequence', 'facts:locks.rotateWAL.seqHandover'], components=[ENGINE, CRASH, SEQROT, WALRET], fact_tags=['storage', 'memtable', 'wal'],
+from oracledefs import applier as _ap
+# the last sequence a replica reports (GetLastAppliedSequence, acknowledgements) never decreases: the applier programs of C13
+APPLIER_C08 = Comp('applier', n_quick=500, n_thorough=8000, oracle=_ap.applier_monotone_oracle, nontrivial=_ap.applier_nontrivial, stats=_ap.applier_stats, chunk_min=50, timeout=900)
+WALRET = Comp('walret', n_quick=200, n_thorough=6000, oracle=_wr.walret_oracle, nontrivial=_wr.walret_nontrivial, stats=_wr.walret_stats)
+reg(Prop('C08', 'Kevo.Props.C08', facts=['facts:storage.*', 'facts:wal.AppendBatch.nextSequence', 'facts:locks.rotateWAL.seqHandover'], components=[ENGINE, CRASH, SEQROT, WALRET, APPLIER_C08], fact_tags=['storage', 'memtable', 'wal'],
          rule=_ENGINE_RULE + ' Plus component crash: after a kill at every instrumentation site the recovered last sequence must be the number of the '
               'last recovered write and later writes continue above it. Plus implementation-only component seqrot (scenario kind of component lin, see C06): '
               '1-4 writers at full speed against back-to-back FlushImMemTables (about 100 log rotations per second); the replayed log directory must '
               'hold every acknowledged write once and its sequence numbers must be strictly increasing in log order (the counter hand-over in '
-              'rotateWAL is also pinned by the fact locks.rotateWAL.seqHandover). Plus component walret: the real WAL.ManageRetention (count / age / sequence rules, thresholds at -2..+2 of the highest number written, creation times set through the file names) on directories of 1-6 log files, some empty, against Kevo.Model.Retention (number of files deleted, remaining bytes, replay), then restart and further writes; oracle: the documented policy re-implemented in Python, and whenever only the sequence rule is active with MinSequenceKeep <= the highest number written the restart continues the numbering (C08.retention_keeps_max).', assumptions=_ENGINE_ASSUME))
+              'rotateWAL is also pinned by the fact locks.rotateWAL.seqHandover). Plus component walret: the real WAL.ManageRetention (count / age / sequence rules, thresholds at -2..+2 of the highest number written, creation times set through the file names) on directories of 1-6 log files, some empty, against Kevo.Model.Retention (number of files deleted, remaining bytes, replay), then restart and further writes; oracle: the documented policy re-implemented in Python, and whenever only the sequence rule is active with MinSequenceKeep <= the highest number written the restart continues the numbering (C08.retention_keeps_max). Plus component applier (see C13; Lean: C13.reported_monotone): the sequence a replica reports through the replication protocol never decreases under arbitrary delivery schedules (the two C13 findings are listed for that component and reported there).', assumptions=_ENGINE_ASSUME))
